@@ -214,7 +214,7 @@ def delims_ok(vals):
 class C11:
     PROP = "C11"
     LEVEL = "exploration"
-    RUN_S = 40
+    RUN_S = 240
     TIERS = {
         "quick": {"runs": 2400, "budget_s": 60, "chunk": 4, "determinism_runs": 12, "minimise_s": 30},
         "thorough": {"runs": 400000, "budget_s": 1200, "chunk": 8, "determinism_runs": 64, "minimise_s": 240},
@@ -339,7 +339,7 @@ class C11:
         # fork, in REVERSED order, each in a freshly built environment together with its canonical
         # default-delimiter rewriting; (C) a sample of the probes in the pristine fork, where no
         # other environment ever existed.
-        res = fork.run_in_fork(self._run_here, sc)
+        res = fork.run_in_fork(self._run_here, sc, timeout_s=900)
         probes = res.pop("probes")
         st = res["stats"]
         viol = res["violations"]
